@@ -76,6 +76,16 @@ def roundtrip(name, model, cls, rds, res, sigs, **kw):
                 res["oracle_failures"].append(dict(clause="restored_model_predicts_differently", reporting=label, detail=why, **case))
         except Exception as e:  # noqa
             res["oracle_failures"].append(dict(clause="restored_model_predict_raises", reporting=label, error=f"{type(e).__name__}: {str(e)[:120]}", **case))
+    # a JSON document has no key order: a store that re-orders object keys (sorted keys, e.g. a jsonb column) must give the same model
+    try:
+        with contextlib.redirect_stdout(io.StringIO()):
+            m3 = cls.from_json(json.dumps(json.loads(js), sort_keys=True))
+            rd0 = next(iter(rds.values()))
+            ok, why = frames_equal(model.predict(rd0, **kw), m3.predict(rd0, **kw))
+        if not ok:
+            res["oracle_failures"].append(dict(clause="restored_model_depends_on_json_key_order", detail=why, **case))
+    except Exception as e:  # noqa
+        res["oracle_failures"].append(dict(clause="restored_model_depends_on_json_key_order", error=f"{type(e).__name__}: {str(e)[:120]}", **case))
     # timezone, warnings, disqualification
     for attr in ("baseline_timezone",):
         if hasattr(model, attr) and str(getattr(model, attr)) != str(getattr(m2, attr, None)):
@@ -157,7 +167,7 @@ def run(ctx):
                "outside": HourlyReportingData(synth_hourly(days=20, seed=6).assign(temperature=lambda d: d.temperature * 2.5 - 70), is_electricity_data=True)}
         hm = HourlyModel().fit(hb, ignore_disqualification=True)
         roundtrip("hourly_nonsolar", hm, HourlyModel, hrd, res, sigs, ignore_disqualification=True)
-        if thorough or scale > 1:
+        if True:
             ghi = synth_hourly(days=365).assign(ghi=lambda d: np.maximum(0, 500 * np.sin((np.arange(len(d)) % 24 - 6) / 12 * np.pi)))
             hm2 = HourlyModel().fit(HourlyBaselineData(ghi, is_electricity_data=True), ignore_disqualification=True)
             roundtrip("hourly_solar", hm2, HourlyModel, {"inside": HourlyReportingData(ghi.iloc[:24 * 30], is_electricity_data=True)}, res, sigs,
